@@ -54,11 +54,12 @@ def explore(run, bound=None, max_execs=None, on_exec=None, shard=None, expand=No
         ch = Chooser(prefix)
         result = run(ch)
         n_exec += 1
+        do_expand = True if expand is None else expand(ch, result)
         if not (root and shard is not None and shard[0] != 0):
             yield ch, result
         if max_execs is not None and n_exec >= max_execs:
             return
-        if expand is not None and not expand(ch, result):
+        if not do_expand:
             root = False
             continue          # the harness asks not to branch below this execution (e.g. it already fails)
         pts = ch.points
